@@ -401,3 +401,12 @@ Definition conc_step_split (name : bytes) (st : mem * list sthread) (tid : nat) 
   end.
 Definition conc_run_split (name : bytes) (st : mem * list sthread) (sched : list nat) : mem * list sthread :=
   fold_left (conc_step_split name) sched st.
+
+(** regression witness (seeded change C36-3): a MAC comparator that accumulates the byte
+    differences with XOR instead of OR — NOT what decryptData does (bytes.Equal = [bytes_eqb]) *)
+Fixpoint xor_acc (a b : bytes) (acc : N) : N :=
+  match a, b with
+  | x :: a', y :: b' => xor_acc a' b' (N.lxor acc (N.lxor x y))
+  | _, _ => acc
+  end.
+Definition xor_acc_eq (a b : bytes) : bool := Nat.eqb (length a) (length b) && (xor_acc a b 0 =? 0).
